@@ -104,7 +104,7 @@ func (o *QueryOptions) Flags() primitive.QueryFlag {
 	if o.SkipMetadata {
 		flags = flags.Add(primitive.QueryFlagSkipMetadata)
 	}
-	if o.PageSize != 0 {
+	if o.PageSize != 0 || o.PageSizeInBytes {
 		flags = flags.Add(primitive.QueryFlagPageSize)
 		if o.PageSizeInBytes {
 			flags = flags.Add(primitive.QueryFlagDsePageSizeBytes)
